@@ -164,6 +164,9 @@ func solveAll(vcs []*VC, dir string, timeoutS int, seed int, keep bool) {
 		go func() {
 			defer wg.Done()
 			for j := range ch {
+				if j.o.Result != "" {
+					continue // already settled (automatic frame candidates)
+				}
 				name := fileSan.ReplaceAllString(j.o.Name, "_")
 				if len(name) > 150 {
 					name = name[:150]
